@@ -219,6 +219,27 @@ func (c *Conn) Close() error {
 	return c.CloseErr
 }
 
+// WriteAndAbort writes p and aborts the connection in one atomic step (a peer dying mid-frame).
+func (c *Conn) WriteAndAbort(p []byte) {
+	if !vsched.Active() {
+		return
+	}
+	vsched.PointObj("vnet.WriteAndAbort "+c.Name, nil, unsafe.Pointer(&c.wr.obj), true)
+	vsched.Touch(unsafe.Pointer(&c.rd.obj), true)
+	if c.closed {
+		return
+	}
+	c.record(p, len(p), ErrReset)
+	if c.peer != nil && c.peer.Sink != nil {
+		c.peer.Sink(append([]byte(nil), p...))
+	} else {
+		c.wr.buf = append(c.wr.buf, p...)
+	}
+	c.closed = true
+	c.wr.reset = ErrReset
+	c.rd.rclosed = true
+}
+
 // Abort makes the peer's reads fail with a reset (after draining) and its writes fail.
 func (c *Conn) Abort() {
 	if !vsched.Active() {
